@@ -7,6 +7,7 @@ CONSTANTS
   Sigs = {"TERM", "INT", "STOP", "CONT", "0"}
   JobsOpts = {"", "-l", "-p"}
   KillLNums = {0, 2, 9, 386, 399}
+  MonCmds = {0, 1}
   FgSlots = {3}
   StartWith = "none"
 VIEW view
